@@ -5,7 +5,10 @@ Nothing here mentions program counters, the mutex or `totalGo` accounting: it is
 
 * C10 (`c10Conc`, `SeqMon` accounting): an accepted task is executed or handed back at most once in
   total, at quiescence exactly once (tasks still in the queue of a pool that never got to them are
-  C12's subject and are counted as queued); a task whose Submit failed is never executed.
+  C12's subject and are counted as queued — as long as the pool can still get to them: once the pool is
+  Stopped, i.e. ShutdownNow returned or the channel returned by Shutdown is closed, no worker will ever
+  run them and no ShutdownNow can hand them back any more, so nothing may be left over: executed or handed
+  back, exactly once); a task whose Submit failed is never executed.
 * C11 (`c11Conc`): high-water mark of concurrently running tasks and every `GoCnt` sample ≤ maxGo
   (after the constructor's normalisation), no task before Start, the one-way lifecycle on the call log.
 * C12 (`c12Conc`): when the channel returned by Shutdown is observed closed every accepted task has
@@ -100,6 +103,11 @@ def c10Conc (o : ConcObs) : Option String :=
     else if !o.unstable && (if o.bb then o.bbq else o.go == 0) && nowOk && acc != done then
       -- after ShutdownNow nothing may be left behind: executed or handed back, never neither
       some s!"C10 after ShutdownNow {acc} accepted tasks but only {done} were executed or handed back"
+    else if !o.unstable && (if o.bb then o.bbq else o.go == 0) && o.done == "closed" && acc != done then
+      -- the channel returned by Shutdown is closed: the pool is Stopped for good (Submit, Start, Shutdown and
+      -- ShutdownNow all fail from now on, no worker is left), so a task that is still in its closed queue will
+      -- never be executed and never be handed back
+      some s!"C10 Shutdown completed (done channel closed, pool stopped) with {acc} accepted tasks but only {done} executed: the others can no longer be executed or handed back"
     else none
 
 def lifecycle (calls : List CallObs) : Option String :=
@@ -233,7 +241,11 @@ def SeqMon.call (m : SeqMon) (op : List String) (res : String) : SeqMon × Optio
   | ["end"] => ({ m with tasks := m.tasks.map fun t => { t with released := true } }, none)
   | _ => (m, none)
 
-def finished (t : STask) (runs : Nat) : Bool := runs == 1 && (t.beh != "block" || t.released)
+/-- behaviours of the harness's tasks that stay inside `Run` until the scenario releases them
+    (then they return nil / panic / return an error) -/
+def held (beh : String) : Bool := beh == "block" || beh == "bpanic" || beh == "berr"
+
+def finished (t : STask) (runs : Nat) : Bool := runs == 1 && (!held t.beh || t.released)
 
 /-- snapshot laws, selected by property -/
 def SeqMon.snap (m : SeqMon) (prop : String) (go q : Nat) (dn : Bool) (runs : List Nat) (atEnd : Bool)
@@ -260,6 +272,11 @@ def SeqMon.snap (m : SeqMon) (prop : String) (go q : Nat) (dn : Bool) (runs : Li
         some s!"C10 at quiescence {acc} accepted tasks but {done} executed-or-returned and {q} still queued"
       else if atEnd && (if bb then bbq else go == 0) && m.life == .stopped && !m.graceful && acc != done then
         some s!"C10 after ShutdownNow {acc} accepted tasks but only {done} were executed or handed back"
+      else if (if bb then atEnd && bbq else go == 0) && m.graceful && dn && acc != done then
+        -- graceful Shutdown succeeded and the pool context (= the channel Shutdown returned) is closed: the pool is
+        -- Stopped for good and no worker is left, so what is still in the closed queue is lost (never executed,
+        -- and ShutdownNow can no longer hand it back)
+        some s!"C10 Shutdown completed (done channel closed, pool stopped) with {acc} accepted tasks but only {done} executed: the others can no longer be executed or handed back"
       else none
   else if prop == "C12" then
     if dn && m.graceful then
